@@ -237,6 +237,9 @@ def cases(shard, nshards, seed, tier):
     for fmt in (("pdb",) if tier == "quick" else ("pdb", "cif")):
         if mine():
             yield {"family": "eighty-thousand-atoms", "fmt": fmt}
+    for i in range(12 if tier == "quick" else 200):
+        if mine():
+            yield {"family": "through-the-table-writer", "i": i}
     for fn in ("tests/2HY9.cif", "tests/6RS3.cif"):
         for m in ([1, 2, 10] if tier == "quick" else list(range(1, 11))):
             if mine():
@@ -378,6 +381,62 @@ def run_case(case, rec):
                         _read(text2, fmt, req)
                     finally:
                         _cur["expect"] = None
+        return
+    if fam == "through-the-table-writer":
+        # a table that needs fitting (two-character chain name) and has insertion codes, through parse_cif_atoms ->
+        # fit_to_pdb -> write_pdb, then read: every residue and every atom must come back (identities are renamed by the
+        # fitting, so residues are compared by position, atoms by name and coordinates)
+        from rnapolis import parser as _parser
+        from rnapolis import parser_v2
+
+        rng = random.Random(f"{seed}:C08:pipe:{case['i']}")
+        rows = gentab.random_table(rng, nmodels=1, altlocs=False, close_pairs=False, dup_names=False, nchains=rng.choice([1, 2]), wide=False, charges=False, icodes=True)
+        names = {}
+        for r in rows:
+            r["chain"] = names.setdefault(r["chain"], r["chain"] + "X")
+            r["occ"], r["alt"] = 1.0, None
+        # every chain gets a run n, nA, nB: residues that differ in the insertion code only
+        seen_res = {}
+        for r in rows:
+            seen_res.setdefault(r["chain"], [])
+            k = (r["resseq"], r["icode"])
+            if k not in seen_res[r["chain"]]:
+                seen_res[r["chain"]].append(k)
+        for ch, ks in seen_res.items():
+            base_num = ks[0][0]
+            ren = {k: (base_num, None if j == 0 else "ABCDEFGH"[j - 1]) for j, k in enumerate(ks[:4])}
+            taken = set(ren.values())
+            if any((k not in ren) and k in taken for k in ks):
+                continue
+            first_name = next(r["resname"] for r in rows if r["chain"] == ch)
+            for r in rows:
+                if r["chain"] == ch and (r["resseq"], r["icode"]) in ren:
+                    r["resseq"], r["icode"] = ren[(r["resseq"], r["icode"])]
+                    if case["i"] % 2 == 0:
+                        r["resname"], r["rec"] = first_name, "ATOM"  # ... and, every other case, in nothing else (same residue name)
+        want = []
+        for r in rows:
+            k = (r["chain"], r["resseq"], r["icode"], r["resname"])
+            if not want or want[-1][0] != k:
+                want.append((k, []))
+            want[-1][1].append((r["name"], r["x"], r["y"], r["z"]))
+        desc = {"i": case["i"], "route": "mmCIF text -> parse_cif_atoms -> fit_to_pdb -> write_pdb -> read_3d_structure"}
+        try:
+            text = parser_v2.write_pdb(parser_v2.fit_to_pdb(parser_v2.parse_cif_atoms(emit.emit_cif(rows))))
+            pth = emit.scratch_path(".pdb")
+            with open(pth, "w") as fh:
+                fh.write(text)
+            _cur["expect"] = None
+            with open(pth) as fh:
+                st = _parser.read_3d_structure(fh, None)
+        except Exception as e:
+            rec.undecided("pipeline.every-residue-and-atom-comes-back", f"{type(e).__name__} on the way")
+            return
+        rec.mark_nontrivial(True)
+        got = [sorted((a.name, a.x, a.y, a.z) for a in r.atoms) for r in st.residues]
+        exp = [sorted(v) for _, v in want]
+        rec.check("pipeline.every-residue-and-atom-comes-back", got == exp, lambda: {"case": desc, "residues": [len(got), len(exp)], "atoms": [sum(map(len, got)), sum(map(len, exp))],
+                                                                                      "identities-written": [k for k, _ in want][:8]})
         return
     if fam == "eighty-thousand-atoms":
         # a very large entry: 80 005 atoms on a lattice, and close pairs whose two atoms are far apart in the file
